@@ -171,3 +171,38 @@ func mathLiftCases(c *run.Ctx) {
 		}
 	}
 }
+
+// ---------------------------------------------------------------- a name defined twice
+
+// A funcs file (or a later --funcs file) may define a name again; the loader works through the lines in order with one
+// compiler, so from that line on the name means the new body. What a function defined *between* the two definitions
+// calls is not decided here (it is never called below). Judged: the name itself, and functions defined after the
+// second definition that use the name as a whole statement, as an argument of another call, and twice in one body -
+// each must equal its body written inline with the name's LAST body. A compiler that remembers compiled pieces by
+// their text would hand the later definitions the first body.
+func redefinitionCases(c *run.Ctx) {
+	type one struct{ file, tpl, ref string }
+	cases := []one{
+		{"rnorm {lower {0}}\nrisadmin {eq {rnorm {0}} admin}\nrnorm {upper {0}}\nrisroot {eq {rnorm {0}} ROOT}\n", "{risroot {0}}", "{eq {upper {0}} ROOT}"},
+		{"rnorm {lower {0}}\nrisadmin {eq {rnorm {0}} admin}\nrnorm {upper {0}}\nrlen {len {rnorm {0}}}x{rnorm {0}}\n", "{rlen {0}}", "{len {upper {0}}}x{upper {0}}"},
+		{"rnorm {lower {0}}\nrisadmin {eq {rnorm {0}} admin}\nrnorm {upper {0}}\n", "{rnorm {0}}|{rnorm {1}}", "{upper {0}}|{upper {1}}"},
+		{"pick {select {0} 0}\nfirstlen {len {pick {0}}}\npick {select {0} 1}\nsecondlen {len {pick {0}}}-{pick {0}}\n", "{secondlen {0}}", "{len {select {0} 1}}-{select {0} 1}"},
+		{"w <{0}>\nuse1 {upper {w {0}}}\nw [{0}]\nuse2 {upper {w {0}}}{lower {w {1}}}\n", "{use2 {0} {1}}", "{upper [{0}]}{lower [{1}]}"},
+		{"t {sumi {0} 1}\na {multi {t {0}} 2}\nt {sumi {0} 10}\nb {multi {t {0}} 2}\n", "{b {1}}", "{multi {sumi {1} 10} 2}"},
+	}
+	ctxs := []Ctx{
+		{E: []string{"root", "7"}, K: map[string]string{}}, {E: []string{"Admin Root", "12"}, K: map[string]string{}},
+		{E: []string{"ROOT x", "-3"}, K: map[string]string{}}, {E: []string{"", ""}, K: map[string]string{}},
+	}
+	for i, o := range cases {
+		if !c.Mine(i) {
+			continue
+		}
+		cs := &Case{Kind: "funcs", Tpl: o.tpl, Ref: o.ref, File: o.file, Ctxs: ctxs}
+		c.Begin(cs, 60*time.Second)
+		c.Nontrivial("redefinition", o.tpl)
+		c.Count("redefinition_cases", 1)
+		runCase(c, cs)
+		c.End()
+	}
+}
